@@ -15,3 +15,24 @@ package definitions
 //@ func PermissionStringToFileMod props C20,C14
 //@ ensures bounded: implies(result1 == nil, result0 <= 4095)
 //@ ensures failed: implies(result1 != nil, result0 == 0)
+
+// ---- the verb tables (package-level maps) ----
+//@ spec routeVerb(v string) bool = v == "GET" || v == "POST" || v == "PUT" || v == "DELETE" || v == "PATCH"
+//@ spec knownVerb(v string) bool = routeVerb(v) || v == "OPTIONS" || v == "HEAD" || v == "TRACE" || v == "CONNECT"
+//@ spec verbTablesInit() bool = forall(v, string, indom(routeSupportedHttpVerbs, v) == routeVerb(v)) && forall(v, string, indom(validHttpVerbs, v) == knownVerb(v))
+
+// The package initialiser establishes the tables (no function under contract is allowed to write them:
+// writes to package-level variables need a modifies clause).
+//@ func init props C10,C14 havocs
+//@ ensures tables: verbTablesInit()
+
+//@ func IsValidRouteHttpVerb props C10,C14
+//@ requires verbTablesInit()
+//@ ensures result == routeVerb(verb)
+
+//@ func IsValidHttpVerb props C10,C14
+//@ requires verbTablesInit()
+//@ ensures result == knownVerb(verb)
+
+//@ func GetRouteSupportedHttpVerbs trusted
+//@ ensures fresh(result)
